@@ -183,6 +183,65 @@ theorem c09_type_rule (env : Env) (hwf : WF env = true) (n : String) (t : V)
     simp only [Bool.and_eq_true] at this
     exact ⟨this.2.1.2, this.2.2, this.2.1.1⟩
 
+/-- … and so is a container pattern given a target that is no instance of the pattern's container
+    class (subclass instances are instances): TypeMatchError ∧ TypeError ∧ MatchError -/
+theorem c09_container_type_rule (env : Env) (hwf : WF env = true) (p : Spec) (t : V)
+    (h : kindMismatch p t = true) :
+    ∃ e, (matchGlom env p none t).1 = .error e ∧
+      env.exc.isSub e.cls "TypeMatchError" = true ∧ env.exc.isSub e.cls "TypeError" = true ∧
+      env.exc.isSub e.cls "MatchError" = true := by
+  have hw := WF.facts hwf
+  have typ : ∀ site, (site, 0, Origin.typ) ∈ siteOrigins →
+      env.exc.isSub (raiseAt env site 0).cls "TypeMatchError" = true ∧
+      env.exc.isSub (raiseAt env site 0).cls "TypeError" = true ∧
+      env.exc.isSub (raiseAt env site 0).cls "MatchError" = true := by
+    intro site hm
+    have := hw.raise_ok (site, 0, .typ) hm
+    unfold classOK at this
+    simp only [Bool.and_eq_true] at this
+    exact ⟨this.2.1.2, this.2.2, this.2.1.1⟩
+  rw [matchGlom_none]
+  cases p with
+  | list alts =>
+    refine ⟨raiseAt env "_glom_match/listlike" 0, ?_, typ _ (by simp [siteOrigins])⟩
+    simp only [kindMismatch] at h
+    simp only [eval]
+    cases ht : t.unsub <;> rw [ht] at h <;> simp_all
+  | set alts =>
+    refine ⟨raiseAt env "_glom_match/listlike" 0, ?_, typ _ (by simp [siteOrigins])⟩
+    simp only [kindMismatch] at h
+    simp only [eval]
+    cases ht : t.unsub <;> rw [ht] at h <;> simp_all
+  | fset alts =>
+    refine ⟨raiseAt env "_glom_match/listlike" 0, ?_, typ _ (by simp [siteOrigins])⟩
+    simp only [kindMismatch] at h
+    simp only [eval]
+    cases ht : t.unsub <;> rw [ht] at h <;> simp_all
+  | tuple ps =>
+    refine ⟨raiseAt env "_glom_match/tuple" 0, ?_, typ _ (by simp [siteOrigins])⟩
+    simp only [kindMismatch] at h
+    simp only [eval]
+    cases ht : t.unsub <;> rw [ht] at h <;> simp_all
+  | dict es =>
+    refine ⟨raiseAt env "_handle_dict" 0, ?_, typ _ (by simp [siteOrigins])⟩
+    simp only [kindMismatch] at h
+    simp only [eval]
+    cases ht : t.unsub <;> rw [ht] at h <;> simp_all
+  | _ => simp [kindMismatch] at h
+
+/-- **Subclass instances**: an instance of a user subclass of list / set / frozenset / tuple is
+    matched by a list / set / frozenset / tuple pattern exactly as the builtin value it holds
+    (`isinstance`, facts: `expectedTargetTests`) — and what comes back is an instance of the
+    builtin class; a Regex, which tests the exact type, rejects an instance of a subclass of str -/
+theorem c09_subclass_instances (env : Env) (c : String) (alts : List Spec) (items : List V) (s : String)
+    (re : List ReItem) (f : ReFunc) :
+    eval env (.list alts) (.sub c (.list items)) = eval env (.list alts) (.list items) ∧
+    eval env (.set alts) (.sub c (.set items)) = eval env (.set alts) (.set items) ∧
+    eval env (.fset alts) (.sub c (.fset items)) = eval env (.fset alts) (.fset items) ∧
+    eval env (.tuple alts) (.sub c (.tuple items)) = eval env (.tuple alts) (.tuple items) ∧
+    eval env (.regex re f) (.sub c (.str s)) = (.error (raiseAt env "Regex.glomit" 0), []) := by
+  refine ⟨?_, ?_, ?_, ?_, ?_⟩ <;> simp [eval, V.unsub]
+
 /-- **It returns a value equal to the target plus Optional defaults**: on a pass the result is
     `expected` … -/
 theorem c09_result (env : Env) (hwf : WF env = true) (p : Spec) (d : Option Arg) (t r : V)
@@ -393,10 +452,15 @@ theorem c09_sees_registration (env : Env) (ct : ClassTable) (a k : String) (t : 
   have : (registerCls ct a k).isSub t.cls a = true := registerCls_isSub ct a k t.cls hrow h
   simp [Env.withCls, this]
 
-/-- **A copy of a pattern decides like the pattern.**  `copy.copy`, `copy.deepcopy` and a pickle
-    round trip rebuild the pattern's nodes from their attribute values; since the markers for "no
-    default given" survive each of them as the very same object (facts: `WF9` ⊇ `markersOK`,
-    re-checked on every run), every target gets the same outcome and the same callables run. -/
+/-- **A copy of a pattern decides like the pattern.**  What carries the content: (1) the model of
+    copying, `copySpec` — a node-by-node rebuild in which a `default=` slot stays "absent" only if
+    the marker object survives that way of copying; (2) the extracted marker table (`WF9` ⊇
+    `markersOK`: `_MISSING`, `RAISE`, `M` come back from copy / deepcopy / pickle as the very same
+    object — introspected on every run); (3) the assumption that CPython's copy / pickle rebuild
+    spec objects attribute by attribute, which is validated on the implementation by the copied
+    cases of the correspondence only.  Given (2), `copySpec` is the identity, and the statement
+    below follows by rewriting: the theorem records that nothing *else* in the model depends on
+    object identity; the counter-example `c09_copy_needs_marker_identity` shows what (2) excludes. -/
 theorem c09_copy_invariant (env : Env) (f : Facts9) (hwf9 : WF9 env f = true) (how : String)
     (hh : how ∈ ["copy", "deepcopy", "pickle"]) (p : Spec) (d : Option Arg) (t : V) :
     matchGlom env (copySpec f.identity how p) (copyDflt (markerKept f.identity "_MISSING" how) "_MISSING" d) t
@@ -604,6 +668,28 @@ example : precStep precedence [("type(match) is type", "return 2")] .plain (.ty 
 example : requiredIdx [(.plain, .lit (.str "a"), .ty "int"), (.plain, .ty "str", .ty "int"),
     (.opt none, .lit (.str "b"), .ty "int"), (.req, .pred 0 "is_str", .ty "int"),
     (.plain, .tuple [.lit (.str "p"), .lit (.int 1)], .ty "int")] 0 = [0, 3, 4] := by decide
+-- a dict pattern on an instance of a subclass of dict: matched, defaults added, a plain dict returned
+example : (matchGlom genEnv (.dict [(.plain, .ty "str", .ty "int"), (.opt (some (.const (.int 0))), .lit (.str "n"), .ty "int")])
+    none (.sub "MyDict" (.dict [(.str "a", .int 1)]))).1 = .ok (.dict [(.str "a", .int 1), (.str "n", .int 0)]) := by
+  decide
+example : (matchGlom genEnv (.ty "Mapping") none (.sub "MyDict" (.dict []))).1 = .ok (.sub "MyDict" (.dict [])) ∧
+    (matchGlom genEnv (.ty "MyDict") none (.dict [])).1 = .error ⟨"TypeMatchError"⟩ := by decide
+example : kindMismatch (.list [.ty "int"]) (.sub "MyTuple" (.tuple [])) = true := by decide
+-- plus Optional defaults, nested: the example pattern's result is its target plus the `nick` default
+example : plusDefaults genEnv.cls exPat exTarget
+    (.list [.dict [(.str "id", .int 1), (.str "email", .str "a@b"), (.str "nick", .str "")],
+            .dict [(.str "id", .int 2), (.str "email", .str "c@d"), (.str "nick", .str "bo")]]) = true := by decide
+-- … a result that lacks the default, or changed a value, is not
+example : plusDefaults genEnv.cls exPat exTarget exTarget = false := by decide
+example : plusDefaults genEnv.cls exPat exTarget
+    (.list [.dict [(.str "id", .int 9), (.str "email", .str "a@b"), (.str "nick", .str "")],
+            .dict [(.str "id", .int 2), (.str "email", .str "c@d"), (.str "nick", .str "bo")]]) = false := by decide
+/-- without `wfV` (here: a subclass instance): what comes back is an instance of the builtin
+    class, so `plusDefaults`, which compares classes too, does not hold -/
+theorem c09_plus_defaults_needs_wf :
+    (matchGlom genEnv (.list [.ty "int"]) none (.sub "MyList" (.list [.int 1]))).1 = .ok (.list [.int 1]) ∧
+    plusDefaults genEnv.cls (.list [.ty "int"]) (.sub "MyList" (.list [.int 1])) (.list [.int 1]) = false := by
+  decide
 -- constructor errors
 example : ctorErr (.dict [(.opt none, .ty "int", .ty "int")]) = some ⟨"ValueError"⟩ := by decide
 example : ctorErr (.dict [(.req, .lit (.str "a"), .ty "int")]) = some ⟨"ValueError"⟩ := by decide
